@@ -134,6 +134,8 @@ def run(ck):
     # 6. diffusion curve and metrics ---------------------------------------------------------
     check_curve_and_metrics(ck, repo, scope)
     ck.extra["functions_in_scope"] = scope
+    from ..purity import purity
+    purity(ck, repo, [repo.find_function(n) for n in dict.fromkeys(scope)])
     ck.floor("functions in scope", len(scope), 14)
     ck.exhaustive = True
     ck.assume("uninterpreted callees with role-named parameters are themselves equivariant (each is checked where it is analysed)")
